@@ -656,6 +656,42 @@ func (e *c11Env) doEdit(b baskettypes.Basket) bool {
 	return err == nil
 }
 
+// doWithdrawSurplus: what the WithdrawSurplus proposal does (keeper call of the proposal handler), for a list of basket
+// ids that may repeat an id or name a basket that does not exist
+func (e *c11Env) doWithdrawSurplus(target int, ids []uint64) bool {
+	before := e.snap(target)
+	owedSurplus := sdk.Coins{}
+	seen := map[uint64]bool{}
+	for _, id := range ids {
+		if b, err := e.k.GetBasketById(e.ctx, id); err == nil && !seen[id] {
+			owedSurplus = owedSurplus.Add(b.Surplus...)
+			seen[id] = true
+		}
+	}
+	tb := e.w.app.BankKeeper.GetAllBalances(e.ctx, e.w.addrs[target])
+	err := withCache(e.ctx, func(c sdk.Context) error {
+		return e.k.BasketWithdrawSurplus(c, baskettypes.ProposalBasketWithdrawSurplus{BasketIds: ids, WithdrawTarget: e.w.addrs[target].String()})
+	})
+	var is []string
+	for _, id := range ids {
+		is = append(is, fmt.Sprint(id))
+	}
+	e.op(fmt.Sprintf("basket withdraw-surplus to=%d ids=%s", target, strings.Join(is, ",")), okErr(err))
+	e.r.Count("withdraw-surplus:" + okErr(err))
+	e.r.Case(fmt.Sprintf("withdraw-surplus/%d/%v/%v", target, ids, err == nil), err == nil)
+	e.checkInv(before, e.snap(target), "withdraw-surplus")
+	if err == nil {
+		got := e.w.app.BankKeeper.GetAllBalances(e.ctx, e.w.addrs[target]).Sub(tb...)
+		if !got.IsEqual(owedSurplus) {
+			e.fail("C11/withdraw-surplus/paid-ne-recorded-surplus", fmt.Sprintf("proposal over baskets %v paid %s to the target, the recorded surplus of those baskets was %s", ids, got, owedSurplus))
+		}
+	}
+	for id := range seen {
+		e.observe(id)
+	}
+	return err == nil
+}
+
 func (e *c11Env) doDisable(a int, kind int, id uint64) {
 	before := e.snap(-1)
 	s := sdk.WrapSDKContext
@@ -1176,8 +1212,23 @@ func runC11(r *Rec) {
 				e.genSwap(id)
 			case x < 93:
 				e.setTime(e.now + int64([]int{1, 2, 3, 5, 7, 20, 61, 86400}[r.Rng.Intn(8)]))
-			case x < 99:
+			case x < 97:
 				e.genEdit(id)
+			case x < 99:
+				// WithdrawSurplus proposal: one basket, the same basket twice, several baskets, an unknown id last
+				ids := []uint64{id}
+				switch r.Rng.Intn(4) {
+				case 0:
+					ids = []uint64{id, id}
+				case 1:
+					ids = append([]uint64{}, e.ids...)
+					ids = append(ids, id)
+				case 2:
+					if r.Rng.Intn(3) == 0 {
+						ids = append(ids, 999)
+					}
+				}
+				e.doWithdrawSurplus(e.holders[r.Rng.Intn(len(e.holders))], ids)
 			default:
 				a := 0
 				if r.Rng.Intn(3) == 0 {
